@@ -87,7 +87,7 @@ def secrets(share_idx, lease_id, shared_cancel=False):
     return rs, cs
 
 
-def build_population(cfg, now, rng, tier, shared_cancel_only=False):
+def build_population(cfg, now, rng, tier, shared_cancel_only=False, variant=0):
     """Shares + chronological lease plan.  Renewal instants = threshold + delta, clipped to <= now."""
     thr = threshold(cfg, now)
     lo = now - 3 * YEAR + DAY
@@ -176,7 +176,8 @@ def build_population(cfg, now, rng, tier, shared_cancel_only=False):
     # it are judged as usual, the damaged one is not judged
     damages = ("bad-version-magic", "truncated-header", "zero-length")
     for k in kinds:
-        for n in (2, 3, 4):
+        # quick: buckets of 2 and 3 shares in even-numbered configurations, of 4 shares in odd-numbered ones
+        for n in ((2, 3, 4) if tier != "quick" else ((2, 3) if variant % 2 == 0 else (4,))):
             for pos in range(n):
                 profiles = [(-YEAR, "expired")] + ([(DAY, "valid")] if n == 2 else [])
                 for d0, pname in profiles:
@@ -332,7 +333,7 @@ def run(ck):
                                    expiration_override_lease_duration=cfg["override"],
                                    expiration_cutoff_date=cfg["cutoff"],
                                    expiration_sharetypes=cfg["sharetypes"], clock=clock)
-            shares = build_population(cfg, now, ck.rng("pop", ci, ck.seed), ck.tier, shared_only)
+            shares = build_population(cfg, now, ck.rng("pop", ci, ck.seed), ck.tier, shared_only, variant=ci)
             if cfg.get("tahoe_cfg") is not None and ck.tier == "quick":
                 keep = [s for i, s in enumerate(shares)
                         if s.tag in ("single", "all-expired", "one-valid-among-expired", "all-valid",
